@@ -180,6 +180,11 @@ class FnTr:
             term, ex, ind(kx(ex, env), 2), pat, ind(cont(v, ty), 2))
 
     def test(self, e, env):
+        if isinstance(e, ast.BoolOp):
+            ts = [self.test(v, env) for v in e.values]
+            if any(t is True or t is False for t in ts):
+                raise Unsupported(e, 'statically decided operand of and / or')
+            return '(%s)' % (' || ' if isinstance(e.op, ast.Or) else ' && ').join(ts)
         if isinstance(e, ast.UnaryOp) and isinstance(e.op, ast.Not):
             t = self.test(e.operand, env)
             return None if t is None else (False if t is True else True if t is False else '(!%s)' % t)
@@ -196,6 +201,8 @@ class FnTr:
                 return '(O.%s s %s)' % (ABC_TESTS[cls.id], v)
             if isinstance(cls, ast.Tuple) and sorted(ast.unparse(c) for c in cls.elts) == ['bytes', 'str']:
                 return '(O.isStrBytes s %s)' % v
+            if isinstance(cls, ast.Name) and cls.id in ('str', 'bytes'):
+                return '(O.is%s s %s)' % (cls.id.capitalize(), v)
             raise Unsupported(e, 'isinstance against `%s`' % cn)
         if isinstance(e, ast.Call) and isinstance(e.func, ast.Name) and e.func.id == 'is_iterable' and len(e.args) == 1 \
                 and not e.keywords:
@@ -404,8 +411,14 @@ class FnTr:
         if a.vararg or a.kwarg or a.kwonlyargs or a.posonlyargs:
             raise Unsupported(self.f, 'signature')
         names = [x.arg for x in a.args]
-        if names != list(self.spec['params']):
+        nspec = len(self.spec['params'])
+        # further parameters WITH defaults are tolerated as long as no translated statement mentions them (they get
+        # no type: any use is refused); the tie is then about calls that leave them at their defaults
+        if names[:nspec] != list(self.spec['params']) or len(names) - nspec > len(a.defaults):
             raise Unsupported(self.f, 'parameters %r, the spec declares %r' % (names, list(self.spec['params'])))
+        if len(names) > nspec:
+            self.notes.append('further defaulted parameters %s: not mentioned by any translated statement' % ', '.join(
+                '`%s`' % n for n in names[nspec:]))
         if self.f.decorator_list:
             raise Unsupported(self.f, 'decorators')
         env = dict(self.spec['params'])
